@@ -87,7 +87,7 @@ def all_crystals():
     return L
 
 
-QUICK = ["sc-1", "CsCl-2", "NaCl-prim-2", "diamond-prim-2", "fcc-conv-4", "bcc-conv-2", "hcp-2", "wurtzite-4",
+QUICK = ["sc-1", "CsCl-2", "NaCl-prim-2", "NaCl-conv-8-interleaved", "diamond-prim-2", "fcc-conv-4", "bcc-conv-2", "hcp-2", "wurtzite-4",
          "rhomb-prim-2", "rhomb-hex-3", "bct-conv-2", "ortho-C-conv-2", "ortho-A-conv-2", "mono-C-conv-4",
          "mono-P21-2", "tri-P1-3"]
 
